@@ -367,10 +367,33 @@ static void *mugger_body(struct cmb_process *me, void *ctx)
     return NULL;
 }
 
+/* at t = 1 every holder has its one unit, and the pool knows it */
+static int holders_n;
+static void holders_audit(void *s, void *o)
+{
+    (void)s;
+    (void)o;
+    uint64_t sum = 0;
+    for (int i = 1; i <= holders_n; i++) {
+        const uint64_t h = cmb_resourcepool_held_by_process(&pool, &procs[i]);
+        sum += h;
+        if (h != 1) {
+            FAIL("holders:holding", "%d simultaneous holders of one unit each: holder %d (the %d. to acquire) holds %" PRIu64,
+                 holders_n, i, i, h);
+            return;
+        }
+    }
+    if (cmb_resourcepool_in_use(&pool) != sum || cmb_resourcepool_available(&pool) != 0) {
+        FAIL("holders:accounting", "%d holders hold %" PRIu64 " units together, the pool says %" PRIu64 " in use, %" PRIu64
+             " available", holders_n, sum, cmb_resourcepool_in_use(&pool), cmb_resourcepool_available(&pool));
+    }
+}
+
 static void run_holders(void)
 {
     static const int NS[] = { 7, 8, 9, 15, 16, 17 };
     const int n = NS[vx_choose_free(6, "n")];
+    holders_n = n;
     op = vx_choose_free(3, "op");
     const int which = vx_choose_free(3, "which");
     nprocs = n + 1;
@@ -383,6 +406,7 @@ static void run_holders(void)
     }
     cmb_process_start(&procs[0]);
     start_next();
+    cmb_event_schedule(holders_audit, NULL, NULL, 1.0, 0);
     int guard = 0;
     while (cmb_event_execute_next() && guard++ < 5000) {
         vx_transition();
